@@ -157,6 +157,8 @@ pub struct Snapshot {
     pub tracing: bool,
     pub warnings: bool,
     pub string_pool_bytes: usize,
+    /// Current depth of nested expression / IF evaluation (0 whenever no host call is in progress).
+    pub nesting_depth: usize,
 }
 
 thread_local! {
